@@ -68,6 +68,9 @@ def objective(name, lb, ub):
         return lambda y: 0.05 / (1.0 + min(np.sum(y ** 2), 1e12))
     if name == 'float_max':
         return lambda y: FLOAT_MAX
+    if name == 'inf_region':                           # +inf on the upper half of the first variable's range, finite elsewhere
+        mid = float((lb[0, 0] + ub[0, 0]) / 2.0)
+        return lambda y: float('inf') if float(np.ravel(y)[0]) > mid else np.sum(y ** 2)
     raise KeyError(name)
 
 
@@ -317,6 +320,8 @@ class Monitor:
 
     # -- reporting
     def v(self, prop, key, what, observed=None, expected=None):
+        if self.cfg.get('only_props') and prop not in self.cfg['only_props']:
+            return          # a configuration outside the quantifier of `prop` (e.g. an objective with infinite values: C03 asks for finite ones)
         for x in self.viol:
             if x['property'] == prop and x['key'] == key:
                 x['count'] = x.get('count', 1) + 1
